@@ -228,6 +228,65 @@ func c11(p *an.Prog, r *an.R, tier string) {
 	_ = sinks
 	c11Containment(p, r)
 	c11Mmap(p, r)
+	c11NoErrorInDocLoop(p, r)
+}
+
+// c11NoErrorInDocLoop: a problem found while evaluating the documents of one
+// shard must not surface as an error of indexData.Search: the sharded searcher
+// aborts the whole query on a shard error, whereas a panic is contained per
+// shard (Crashes counter).
+func c11NoErrorInDocLoop(p *an.Prog, r *an.R) {
+	r.Rule("C11.R5", "inside the document loop of indexData.Search no return carries a non-nil error (data-dependent failures of one shard must stay contained per shard; errors abort the whole sharded query)")
+	d := p.Decl(p.Func("index", "(*indexData).Search"))
+	filesF := p.Field("", "SearchResult", "Files")
+	if !r.Anchor(d != nil && filesF != nil, "index.(*indexData).Search") {
+		return
+	}
+	info := d.Pkg.TypesInfo
+	var loop *ast.ForStmt
+	ast.Inspect(d.Decl.Body, func(n ast.Node) bool {
+		fs, ok := n.(*ast.ForStmt)
+		if !ok || loop != nil {
+			return true
+		}
+		has := false
+		ast.Inspect(fs.Body, func(m ast.Node) bool {
+			if as, ok := m.(*ast.AssignStmt); ok {
+				for _, lh := range as.Lhs {
+					if selField(info, lh, filesF) {
+						has = true
+					}
+				}
+			}
+			return true
+		})
+		if has {
+			loop = fs
+		}
+		return true
+	})
+	if !r.Anchor(loop != nil, "document loop of indexData.Search") {
+		return
+	}
+	bad := 0
+	ast.Inspect(loop.Body, func(n ast.Node) bool {
+		if _, isLit := n.(*ast.FuncLit); isLit {
+			return false
+		}
+		rs, ok := n.(*ast.ReturnStmt)
+		if !ok || len(rs.Results) == 0 {
+			return true
+		}
+		last := rs.Results[len(rs.Results)-1]
+		if t := info.TypeOf(last); t != nil && types.Identical(t, errorType) && !info.Types[last].IsNil() {
+			bad++
+			r.Bad("C11.R5", "index.(*indexData).Search/document-loop/returns-error", rs.Pos(), "the document loop returns an error: for a corrupt shard the sharded searcher then fails the whole query (and discards the other shards' results) instead of counting one crashed shard")
+		}
+		return true
+	})
+	if bad == 0 {
+		r.OK("C11.R5", "index.(*indexData).Search/document-loop/no-error-returns", loop.Pos(), "no return with a non-nil error inside the document loop")
+	}
 }
 
 func hasDeferredRecover(f *ssa.Function) bool {
